@@ -43,6 +43,7 @@ PATH_RULES = {
     "P-ID": "new ids come from the monotone counter, which is advanced by a positive constant on the same path",
     "P-ADJ1": "incidence entries are appended only on the fresh path, in a loop over the key's nodes, with the edge id",
     "P-ACCUM": "weights of existing records are only changed by `+= weight` under the weighted flag",
+    "P-EMETA": "the metadata argument of add_edge reaches _edge_metadata on the path where the hyperedge already exists as well (re-insertion replaces the metadata)",
     "P-DEL": "deleting a record deletes it from every id-keyed table and from the incidence lists of its nodes on every path",
     "P-DELJOINT": "a method that deletes a record from an id-keyed table itself (not through remove_edge) deletes it from every id-keyed table, the key table and the incidence lists on that path",
     "P-BATCH": "add_edges calls add_edge for every item of the batch, also for records that already exist",
